@@ -10,7 +10,7 @@ LEVEL = "other"
 
 
 def run(ctx, res):
-    res.rules_run += ["C09.cover (canonicalize_with: numbers replaced unconditionally by the number crate's canonical form; every array item and every entry value canonicalised; objects sorted on every path)",
+    res.rules_run += ["C09.cover (Value::canonicalize_with per variant: numbers replaced unconditionally by the number crate's canonical form, every array item canonicalised, objects delegated; what Object::canonicalize_with does to its entries is C09.order, decided on the object model)",
                       "C09.order (the comparator of that sort orders keys by UTF-16 code units: Iterator::cmp over encode_utf16() of both keys)",
                       "C08.table / C08.nows (strings minimally escaped, no whitespace) — shared with C08"]
     cover_rule(ctx, res, "C09.cover")
@@ -82,44 +82,10 @@ def cover_rule(ctx, res, rule):
             ok = not tags and after == Agg(vt["id"], vi, fields)
             why = "null, booleans and strings are left untouched"
         res.ob(ok, rule, key, "Value::canonicalize_with on %s does %r (%s)" % (vn, tags, why), sample={"variant": vn, "does": tags})
-    # Object::canonicalize_with with n = 0, 1, 2 entries
-    oty = P.types[oc["locals"][1]]["to"]
-    ety = None
-    for t in P.types:
-        if t.get("name") == "json_syntax::object::Entry" and t["k"] == "adt" and "SmallString" in t["s"]:
-            ety = t["id"]
-    for n in (0, 1, 2, 3):
-        sh = shape.Shape(P)
-        sh.cut(r"^json_syntax::Value::canonicalize_with$", "rec")
-        sh.cut(r"^json_syntax::Object::sort$", "sort")
-        sh.cut(r"^(core|std)::slice::<impl \[.*Entry.*\]>::sort(_unstable)?_by", "sort_by")
-        sh.cut(r"IndexMap::clear$", "clear")
-        sh.cut(r"IndexMap::insert$", "index_insert", ret=lambda it, st, c, a: Conc(1))
-        buf = sh.cell(Top(None, "buffer"))
-        ents = sh.st.new_obj(AVec(tuple(Agg(ety, 0, (Top(None, "key%d" % i), Top(None, "val%d" % i))) for i in range(n)), "entries"))
-        me = sh.st.new_obj(Agg(oty, 0, (ents, Top(None, "indexes"))))
-        key = "%s/Object/n=%d" % (rule, n)
-        try:
-            outs = sh.run(oc, [Ref(("H", me.id), ()), buf])
-        except Undecided as e:
-            res.violation(rule, key + "/undecided", "deviates from the reviewed shape; while interpreting: %s" % e)
-            continue
-        res.count("canonicalize_cases")
-        if len(outs) != 1 or outs[0].outcome[0] != "return":
-            res.violation(rule, key + "/paths", "Object::canonicalize_with on %d entries is not one unconditional path (%d paths)" % (n, len(outs)))
-            continue
-        ev = [e for e in shape.events(outs[0]) if e[0] != "elem"]
-        tags = [e[0] for e in ev]
-        recs = [e for e in ev if e[0] == "rec"]
-        want = [Ref(("H", ents.id), (("el", i), ("f", 1))) for i in range(n)]
-        ok = [e[1][0] for e in recs] == want and all(e[1][1] == buf for e in recs)
-        res.ob(ok, rule, key + "/values", "Object::canonicalize_with must canonicalise the value of each of the %d entries (it visits %r)" % (n, [repr(e[1][0]) for e in recs]),
-               sample={"entries": n, "values_canonicalised": len(recs)})
-        sorts = [i for i, t in enumerate(tags) if t in ("sort", "sort_by")]
-        last_rec = max([i for i, t in enumerate(tags) if t == "rec"], default=-1)
-        res.ob(len(sorts) >= 1 and sorts[0] > last_rec, rule, key + "/sorted", "Object::canonicalize_with must sort the members after canonicalising the values, on every path (events %r)" % (tags,),
-               sample={"entries": n, "events": tags})
-    res.floor(rule, "canonicalize_cases", 9)
+    # Object::canonicalize_with: what it does to the entries (every value canonicalised once, the members in UTF-16 key order,
+    # the index exact) is decided by the model rule on all small objects (C09.order / C10.total); an event-shape rule here
+    # (one path, a sort event after the last value) alarmed on an early return for an object that is already in order.
+    res.floor(rule, "canonicalize_cases", 6)
 
 
 def comparator_closures(P):
